@@ -78,6 +78,25 @@ def solve_over(rng, r, delta):
     return None
 
 
+def solve_slo_below_shi(rng, r):
+    """MDS input words whose lane r has s_lo < s_hi (the low 64 bits of the exact lane sum are smaller than the carry
+    word): a narrow window (< 2^-45 of all states) in which shift/subtract rewrites of `s_hi * 0xffffffff` go wrong"""
+    for _ in range(200):
+        k = rng.randrange(16)
+        w = [rng.randrange(P // 2, P) for _ in range(16)]
+        c = T.COL[(r - k) % 16]
+        rest = sum(T.COL[(r - j) % 16] * w[j] for j in range(16) if j != k)
+        a0 = rng.randrange(0, P)
+        m = ((rest + c * a0) >> 64)
+        ak = -((rest - m * 2**64) // c)          # smallest ak with rest + c*ak >= m*2^64
+        if 0 <= ak < P:
+            w[k] = ak
+            S = rest + c * ak
+            if (S & (2**64 - 1)) < (S >> 64):
+                return w
+    return None
+
+
 def cases(tier, rng):
     out = []
     big = tier == "thorough"
@@ -168,6 +187,10 @@ def cases(tier, rng):
             if w is not None:
                 lbl = "lane-overflow-64" if "over" in T.lane_class(w) else "lane-near-overflow"
                 out.append((lbl, fmt(rng.choice(("perm", "trace")), T.pullback_words(w))))
+        for _ in range(6 * reps):
+            w = solve_slo_below_shi(rng, r)
+            if w is not None:
+                out.append(("lane-slo-below-shi", fmt(rng.choice(("perm", "trace")), T.pullback_words(w))))
     # several lanes non-canonical at once: solve a linear system would be needed; use the circulant structure:
     # MDS input = M^-1 (targets) gives all 16 lane sums congruent to chosen small values
     for _ in range(2000 if big else 40):
